@@ -162,12 +162,72 @@ def body(sub, root: tuple, tv: TV, extra=None) -> List[Tuple[str, str, str, str]
 valuecheck.register("C15", body, None, extra)
 
 
+PINNED_NAMES = ["x", "", "Kind", ["snake", 0], ["pascal", 1], "self", "id ", ["lower", 2], "__proto__", "uri_"]
+
+
+def _pinned_work(args) -> dict:
+    """every union alternative at its use sites: a fresh key at *every* object node of the routed value, one node at a time
+    (hand-written discriminators look at the key sets of exactly these nodes)."""
+    from ..hyp import mini
+    from ..tvgen import to_json
+    items, seed, k = args
+    sub = valuecheck.subject()
+    lctx = Ctx("C15", "quick", seed)
+    res = {"evaluations": 0, "hashes": set()}
+    for (occ, idx, root, route) in items:
+        strat = tvgen.value_strategy(sub.objects, root, tvgen.GenCfg(route=route, max_nodes=120))
+
+        def one(x):
+            tv, _ = x
+            paths = object_paths(tv)
+            for ni in range(min(len(paths), 10)):
+                name = PINNED_NAMES[(ni + res["evaluations"]) % len(PINNED_NAMES)]
+                payload = [None, 1, {"a": None}, "s", [1, {}], True][(ni + res["evaluations"]) % 6]
+                extra_ = [[ni, name, payload]]
+                res["evaluations"] += 1
+                res["hashes"].add(tvgen.canon_hash([valuecheck.root_name(root), erase(tv), ni, name]))
+                for f in body(sub, root, tv, extra_):
+                    lctx.finding((f[0], f[1], f[2]), f[3], {"root": list(root), "json": erase(tv), "tv": to_json(tv), "extra": extra_})
+
+        mini(strat, k, (seed, "C15-pinned", occ, idx, valuecheck.root_name(root)), one)
+    res["violations"] = list(lctx.violations.values())
+    res["known_hits"] = lctx.known_hits
+    res["known_examples"] = lctx.known_examples
+    return res
+
+
+def pinned_nodes(ctx: Ctx, sites_per_occurrence, k: int) -> dict:
+    from .. import runner
+    from ..tvgen import Sites
+    sub = valuecheck.subject()
+    sites = Sites(sub.objects)
+    items = []
+    for locus, t in sub.model.union_occurrences():
+        if locus.split("|")[0] == "alias:LSPAny":
+            continue
+        for root, route in sites.sites(locus, sites_per_occurrence):
+            if root[0] == "alias":
+                continue
+            for i in range(len(t["items"])):
+                items.append((locus, i, root, route + [f"{locus}|{i}"]))
+    results = runner.pmap(_pinned_work, [(sh, ctx.seed, k) for sh in runner.chunks(items, runner.NPROC * 3)])
+    ev, hashes = 0, set()
+    for r in results:
+        ev += r["evaluations"]
+        hashes |= r["hashes"]
+        ctx.merge_worker(r)
+    return {"evaluations": ev, "distinct": len(hashes), "pinned_items": len(items), "cases_per_item": k}
+
+
 def run(ctx: Ctx) -> None:
     ctx.assumptions = [
         "a name is 'undeclared' when no structure, literal or envelope of the metamodel declares it anywhere (so it cannot be a hook discriminator)",
         "payload (LSPAny/LSPObject) and map positions are excluded: a new key there is data",
     ]
     valuecheck.run_value_property(ctx, "C15", n_quick=100, n_thorough=800, rule=RULE)
+    pin = pinned_nodes(ctx, 3 if ctx.quick else None, 3 if ctx.quick else 25)
+    ctx.coverage["pinned_union_alternatives_every_node"] = pin
+    ctx.coverage["evaluations"] += pin["evaluations"]
 
 
 def replay(ctx: Ctx, path: str) -> int:
